@@ -674,7 +674,8 @@ def sessions(ctx):
     for cfg, clause in (('queue', 'ArgumentsUntouched'), ('memo', 'NoMemory'), ('asis', 'RealisationIrrelevant')):
         ctx.mc('MC_BumpSession', 'MC_BumpSession_%s.cfg' % cfg, must_fail=clause, coverage=False)
     if not ctx.quick:
-        ctx.mc('MC_BumpSession', 'MC_BumpSession_thorough.cfg')
+        # (-coverage exhausts the heap on the recursive operators; that every action is taken is checked on the printed histories below)
+        ctx.mc('MC_BumpSession', 'MC_BumpSession_thorough.cfg', coverage=False)
     # the generator runs check every clause on every history they print
     # "collide": groups of 16 histories per fresh process (quick); thorough: every history of the quick universe in a process of
     # its own, the larger universe in groups of 8
@@ -683,6 +684,10 @@ def sessions(ctx):
         s2c_sessions(ctx, ctx.generate('MC_BumpSession', 'MC_BumpSession_genct.cfg'), 'collide', 8)
     probe = ctx.generate('MC_BumpSession', 'MC_BumpSession_gen.cfg' if ctx.quick else 'MC_BumpSession_gent.cfg')
     _PRINTED[:] = sorted(probe, key=json.dumps)[::max(1, len(probe) // 4)][:4]
+    kinds = {e[1][2][0] if e[0] == 'call' else e[1][0] for h in probe for e in h[2]} | {e[1][0] for h in probe for e in h[2] if e[0] == 'call'}
+    missing = {'list', 'splat', 'join', 'item', 'bump', 'dt', 'append', 'popfirst', 'poplast', 'set', 'clear', 'extend'} - kinds
+    if missing:
+        raise Machinery('vacuous: the session machine never took the actions %s' % sorted(missing))
     s2c_sessions(ctx, probe, 'probe', 0)
     if not ctx.quick:
         s2c_sessions(ctx, ctx.generate('MC_BumpSession', 'MC_BumpSession_genf.cfg'), 'free', 0)
